@@ -10,12 +10,15 @@ The contracts quantify over tables and callbacks; what is decided are the clause
   C09.K  min / max / sorted compare by value: the natives push the row's fields in one order at every callback site, the
          compiler binds pushed values to parameters in a fixed direction, row_to_value returns the parameter that receives
          the value, and the wrappers forward (input, row_to_value) to the parameters of the _by_key functions.
-  C09.A  to_array: t.iter().enumerate() and insert(index, value).
+  C09.A  to_array: the key of every inserted row is its position - enumerate()'s index, or a counter that starts at 0 and is
+         stepped by 1 once per row after the insert - and the value is the row's value; the fresh table is returned.
   C09.U  non-table inputs are returned unchanged by every native.
   C09.T  wiring table: every "__name" used by a Card::call_native in stdlib.rs is registered by register_native_stdlib with
          a wrapper of the same arity as the number of argument cards; __min / __max are native_minmax::<_, true/false>
          and inside it LESS selects `<` on the true edge and `>` on the false edge; every library function is part of
-         standard_library().
+         standard_library() (pushed one by one, or by a loop over a literal (name, constructor) table). A native name may
+         reach call_native through the parameter of a private constructor helper; a callback site (push value, push key,
+         run_function) may live in a private helper of the natives - both are followed to the literal / row at the call.
   C09.F / C09.S  ties keep the first row; sorted is stable, ascending, by Value's own ordering on the unconverted keys.
   C09.N  inputs are not mutated: no native derives a mutable table reference from its `iterable` parameter.
   C09.I  no iterator over the input is alive across a callback.
@@ -41,25 +44,169 @@ EXPLANATION = (
 ASSUMPTIONS = ["C18.O (the wrappers pass arguments in declaration order)"]
 
 
+# ---- small symbolic evaluation of the HIR (shared by the wiring rules) ------------------------------------------
+
+def _reduce(f, e, env, depth=0):
+    """Reduce an expression to the expression that produces its value: value-preserving wrappers (`to_string`, `into`,
+    `String::from`, references, casts) are peeled, a local stands for its binding in `env` (rows of a table a loop
+    runs over, arguments of an inlined call) or for its single initialiser, `.N` projects out of a tuple literal."""
+    while e is not None and depth < 12:
+        depth += 1
+        e = hu.strip_all(e)
+        if e is None:
+            return None
+        k = e.get("k")
+        if k == "mcall" and e["name"] in ("to_string", "to_owned", "into", "clone", "as_str", "as_ref") and not e["args"]:
+            e = e["recv"]
+        elif k == "call" and e["args"] and any(n.endswith("From::from") or n.endswith("String::from") for n in hir_callee(e)):
+            e = e["args"][0]
+        elif k == "path" and e["path"]["res"].get("k") == "local":
+            lid = e["path"]["res"]["id"]
+            if lid in env:
+                e = env[lid]
+            else:
+                ins = hu.let_inits(f).get(lid, [])
+                if len(ins) != 1:
+                    return e
+                e = ins[0]
+        elif k == "field":
+            b = _reduce(f, e["e"], env, depth)
+            if b is not None and b.get("k") == "tup" and str(e["name"]).isdigit() and int(e["name"]) < len(b["elems"]):
+                e = b["elems"][int(e["name"])]
+            else:
+                return e
+        else:
+            return e
+    return e
+
+
+def _bind_pattern(p, e, env):
+    """bind the names of an irrefutable pattern to the parts of a (tuple) expression; False if the shapes do not fit"""
+    k = p.get("k")
+    if k == "wild":
+        return True
+    if k == "bind":
+        env[p["id"]] = e
+        return "sub" not in p or _bind_pattern(p["sub"], e, env)
+    if k in ("ref", "deref", "box"):
+        return _bind_pattern(p["pat"], e, env)
+    if k == "tuple":
+        e = hu.strip_all(e)
+        if e is None or e.get("k") != "tup" or len(e["elems"]) != len(p["pats"]):
+            return False
+        return all(_bind_pattern(q, x, env) for q, x in zip(p["pats"], e["elems"]))
+    return False
+
+
+def _loop_rows(f, s_):
+    """a `for <pat> in <table>` whose table is an array literal (possibly held in a single-assignment local, visited
+    through iter / into_iter / copied ..): the list of environments, one per row, that the body runs under; None if
+    the loop does not run over a literal table"""
+    from cao import scoping as sc
+    if s_["kind"] != "for" or any(a not in sc.ITER_SOURCES + ("copied", "cloned", "rev", "by_ref") for a in s_["adapters"]):
+        return None
+    base = hu.strip_all(s_["base"]) if s_["base"] is not None else None
+    if base is None or base.get("k") != "array":
+        return None
+    pat = s_["pat"]            # Some(<element pattern>)
+    while pat is not None and pat.get("k") in ("tuple_struct", "struct"):
+        inner = pat.get("pats") or [fl["pat"] for fl in pat.get("fields", [])]
+        if len(inner) != 1:
+            return None
+        pat = inner[0]
+    envs = []
+    for row in base["elems"]:
+        env = {}
+        if not _bind_pattern(pat, row, env):
+            return None
+        envs.append(env)
+    return envs
+
+
+def _envs_at(f, node):
+    """the environments a node is evaluated under: one per row of every literal table an enclosing `for` runs over"""
+    from cao import scoping as sc
+    envs = [{}]
+    for s_ in sc.searches(f):
+        if s_["kind"] == "for" and any(y is node for y in hir_walk(s_["node"])):
+            rows = _loop_rows(f, s_)
+            if rows is not None:
+                envs = [dict(a, **b) for a in envs for b in rows]
+    return envs
+
+
+def _fn_item(f, e, env):
+    """the crate function an expression calls / names: `filter()` or `build()` with `build` bound to the fn item `filter`"""
+    e = _reduce(f, e, env)
+    if e is None:
+        return None
+    if e.get("k") == "call":
+        c = hir_callee(e)
+        if c:
+            return c[0]
+        return _fn_item(f, e["f"], env)
+    if e.get("k") == "path" and e["path"]["res"].get("k") == "def":
+        return short(e["path"]["res"].get("path", ""))
+    return None
+
+
+def exported_functions(F):
+    """-> (name -> constructor function, unresolved pushes): the (name, Function) pairs that standard_library() pushes
+    onto the module's function list, written one by one or as a loop over a literal table of (name, constructor) rows"""
+    lib = F.fn("stdlib::standard_library")
+    exported = {}
+    unresolved = 0
+    for x in hir_walk(lib.hir["body"]):
+        if not (x.get("k") == "mcall" and x["name"] == "push" and x["args"]):
+            continue
+        for env in _envs_at(lib, x):
+            arg = _reduce(lib, x["args"][0], env)
+            if arg is not None and arg.get("k") == "tup" and len(arg["elems"]) == 2:
+                nm = _reduce(lib, arg["elems"][0], env)
+                fn = _fn_item(lib, arg["elems"][1], env)
+                if nm is not None and nm.get("k") == "lit" and nm["lit"]["k"] == "str" and fn and fn.startswith("stdlib::"):
+                    exported[nm["lit"]["v"]] = fn
+                else:
+                    unresolved += 1
+            else:
+                unresolved += 1
+    return exported, unresolved
+
+
 def rule_t(F):
     res = []
-    # 1. names used by the card programs
+    # 1. names used by the card programs: the string that reaches Card::call_native's first parameter - written in place,
+    #    or handed to a private constructor helper (`fn by_key(native: &str) -> Function`) by the library functions
     used = {}
-    for f in F.fns:
-        if not f.hir or f.is_closure or not f.short.startswith("stdlib::"):
-            continue
+    libfns = [f for f in F.fns if f.hir and not f.is_closure and f.short.startswith("stdlib::")]
+
+    def literal_args(f, e, depth=0):
+        """[(literal string, function that writes it, line)] for the values expression `e` of function `f` can take"""
+        v = _reduce(f, e, {})
+        if v is None:
+            return []
+        if v.get("k") == "lit" and v["lit"]["k"] == "str":
+            return [(v["lit"]["v"], f, v.get("ln") or e.get("ln"))]
+        lid = hir_local_id(v)
+        pidx = next((i for i, p_ in enumerate(f.hir.get("params", [])) if p_.get("k") == "bind" and p_["id"] == lid), None)
+        out = []
+        if pidx is not None and depth < 3:
+            for g in libfns:
+                for y in hir_walk(g.hir["body"]):
+                    if y.get("k") == "call" and f.short in hir_callee(y) and len(y["args"]) > pidx:
+                        out += [(nm, g2, y.get("ln")) for nm, g2, _l in literal_args(g, y["args"][pidx], depth + 1)]
+        return out
+    for f in libfns:
         for x in hir_walk(f.hir["body"]):
             if x.get("k") == "call" and any(n.endswith("Card::call_native") for n in hir_callee(x)):
-                a0 = hir_strip(x["args"][0])
-                if a0.get("k") == "lit" and a0["lit"]["k"] == "str":
-                    name = a0["lit"]["v"]
-                    nargs = None
-                    a1 = hir_strip(x["args"][1])
-                    # vec![..] expands to into_vec(box [..]) / array literal: count the elements of the innermost array
-                    for y in hir_walk(a1):
-                        if y.get("k") == "array":
-                            nargs = len(y["elems"])
-                    used[name] = (f, nargs, x["ln"])
+                nargs = None
+                a1 = hir_strip(x["args"][1])
+                # vec![..] expands to into_vec(box [..]) / array literal: count the elements of the innermost array
+                for y in hir_walk(a1):
+                    if y.get("k") == "array":
+                        nargs = len(y["elems"])
+                for name, g, ln in literal_args(f, x["args"][0]):
+                    used[name] = (g, nargs, ln if g is not f else x["ln"])
     # 2. registered names
     reg = {}
     rf = F.fn("vm::Vm::register_native_stdlib")
@@ -123,16 +270,7 @@ def rule_t(F):
         res.append(bad("C09.T", "C09/T/native_minmax/less-selects-lt", mm.loc(sel[2]), "native_minmax compares with %s when LESS and %s otherwise (operands %s): min/max are swapped or ties no longer keep the first entry" % (sel[0], sel[1], sel[3:])))
     # 4. every library function is exported
     lib = F.fn("stdlib::standard_library")
-    exported = {}
-    for x in hir_walk(lib.hir["body"]):
-        if x.get("k") == "mcall" and x["name"] == "push":
-            for y in hir_walk(x["args"][0]):
-                if y.get("k") == "lit" and y["lit"]["k"] == "str":
-                    nm = y["lit"]["v"]
-                if y.get("k") == "call":
-                    c = hir_callee(y)
-                    if c and c[0].startswith("stdlib::"):
-                        exported[nm] = c[0]
+    exported, unresolved = exported_functions(F)
     expected = {"filter": "stdlib::filter", "any": "stdlib::any", "map": "stdlib::map", "min": "stdlib::min", "max": "stdlib::max",
                 "sorted": "stdlib::sorted", "to_array": "stdlib::to_array", "min_by_key": "stdlib::min_by_key", "max_by_key": "stdlib::max_by_key",
                 "sorted_by_key": "stdlib::sorted_by_key"}
@@ -140,6 +278,8 @@ def rule_t(F):
         key = "C09/T/std.%s/exported" % nm
         if exported.get(nm):
             res.append(ok("C09.T", key, lib.loc(), "std.%s = %s()" % (nm, exported[nm])))
+        elif unresolved:
+            res.append(undecided("C09.T", key, lib.loc(), "standard_library() pushes %d entr(ies) whose name / constructor could not be resolved" % unresolved))
         else:
             res.append(bad("C09.T", key, lib.loc(), "the documented library function std.%s is not part of standard_library()" % nm))
     return res
@@ -215,29 +355,69 @@ def rule_i(F):
     from cao import scoping as sc
     res = []
     n = 0
+
+    def calls_back(node, depth=0):
+        """does the expression run the script key function - itself, or in a private library helper it calls"""
+        for y in hir_walk(node):
+            if y.get("k") not in ("mcall", "call"):
+                continue
+            names = hir_callee(y)
+            if any(c.endswith("Vm::run_function") for c in names):
+                return True
+            if depth < 3:
+                for c in names:
+                    g = F.fn(c, required=False) if c.startswith("stdlib::") else None
+                    if g is not None and g.hir and calls_back(g.hir["body"], depth + 1):
+                        return True
+        return False
+
+    def table_iters(e):
+        return [y for y in hir_walk(e) if y.get("k") == "mcall" and y["name"] in ("iter", "iter_mut", "keys", "keys_mut")
+                and any("cao_lang_table::CaoLangTable::" in c or "hash_map::CaoHashMap::" in c for c in hir_callee(y))]
     for name in ("stdlib::native_minmax", "stdlib::native_sorted"):
         f = F.fn(name)
         k = 0
+        inits = hu.let_inits(f)
+        loops = []      # (line, loop node, header expression or None)
+        for_loops = set()
         for s_ in sc.searches(f):
             if s_["kind"] != "for":
                 continue
-            if not any(y.get("k") == "mcall" and any(c.endswith("Vm::run_function") for c in hir_callee(y)) for y in hir_walk(s_["node"])):
+            for y in hir_walk(s_["node"]):
+                if y.get("k") == "loop":
+                    for_loops.add(id(y))
+                    break
+            scrut = hir_strip(s_["node"]["scrut"])
+            # the iterated expression (before iter/enumerate/skip adapters)
+            it = hu.strip_casts(scrut["args"][0]) if scrut.get("k") == "call" and scrut["args"] else scrut
+            loops.append((s_["ln"], s_["node"], it))
+        for y in hir_walk(f.hir["body"]):
+            if y.get("k") == "loop" and id(y) not in for_loops and y.get("source") != "ForLoop":
+                loops.append((y.get("ln"), y, None))
+        loops.sort(key=lambda x: x[0] or 0)
+        for ln, node, it in loops:
+            if not calls_back(node):
                 continue
             n += 1
             key = "C09/I/%s/callback-loop-iterates-a-copy%s" % (f.name, "" if k == 0 else "#%d" % k)
             k += 1
-            # the iterated expression (before iter/enumerate/skip adapters)
-            scrut = hir_strip(s_["node"]["scrut"])
-            it = hu.strip_casts(scrut["args"][0]) if scrut.get("k") == "call" and scrut["args"] else scrut
-            borrowed = [y for y in hir_walk(it) if y.get("k") == "mcall" and y["name"] in ("iter", "iter_mut", "keys", "keys_mut")
-                        and any("cao_lang_table::CaoLangTable::" in c or "hash_map::CaoHashMap::" in c for c in hir_callee(y))]
+            borrowed = table_iters(it) if it is not None else []
+            # `while` / `loop`: the iterator is a local created before the loop and advanced inside it
+            if it is None:
+                for y in hir_walk(node):
+                    lid = hir_local_id(y) if y.get("k") == "path" else None
+                    for e_ in inits.get(lid, []) if lid is not None else []:
+                        # ... unless what the local holds is owned (a collected Vec<(Value, Value)>): no reference, no iterator
+                        ty = str(e_.get("ty") or "&")
+                        if "&" in ty or "Iter" in ty or "impl " in ty or "*const" in ty or "*mut" in ty:
+                            borrowed += table_iters(e_)
             if borrowed:
-                res.append(bad("C09.I", key, f.loc(s_["ln"]),
+                res.append(bad("C09.I", key, f.loc(ln),
                                "%s calls the script key function inside a loop over `%s` of the input table: a key function that changes the "
                                "table (through a global or captured variable) reallocates its key list / hash part, the iterator and the "
                                "references taken from it then point into freed storage" % (f.name, borrowed[0]["name"])))
             else:
-                res.append(ok("C09.I", key, f.loc(s_["ln"]), "the loop that calls back iterates over an owned copy of the rows"))
+                res.append(ok("C09.I", key, f.loc(ln), "the loop that calls back iterates over an owned copy of the rows"))
     if n < 2:
         raise AnchorMissing("loops calling run_function in the natives (found %d)" % n)
     return res
@@ -246,7 +426,8 @@ def rule_i(F):
 def rule_s(F):
     """sorted / sorted_by_key order by the language's own ordering and stably: the comparator handed to the sort is
     `<Value as PartialOrd>::partial_cmp` applied to the two keys as they are (no conversion in between), the sort is one
-    of the stable std sorts, and ascending (first comparator argument is the receiver)."""
+    of the stable std sorts, and ascending (first comparator argument is the receiver). The comparator is the closure
+    handed to the sort, or the crate function that closure hands its two keys to."""
     from cao.facts import hir_walk, hir_callee, hir_local_id, pat_bindings
     from cao import hirutil as hu
     res = []
@@ -256,85 +437,141 @@ def rule_s(F):
              and any(n.startswith("std::slice::sort") or "::sort" in n for n in hir_callee(x))]
     if not sorts:
         return [undecided("C09.S", key, f.loc(), "no slice sort found in native_sorted")]
+
+    def base_local(e):
+        e = hu.strip_all(e)
+        while e is not None and e.get("k") == "field":
+            e = hu.strip_all(e["e"])
+        return hir_local_id(e) if e is not None else None
+
+    def deep_walk(g, e, seen=None, depth=0):
+        """nodes of e, and of the local closures / crate functions (nested fn items, private helpers) it calls"""
+        seen = set() if seen is None else seen
+        for z in hir_walk(e):
+            yield z
+            if z.get("k") != "call" or depth > 4:
+                continue
+            lid = hir_local_id(hu.strip_all(z["f"])) if z.get("f") is not None else None
+            if lid is not None and lid not in seen:
+                seen.add(lid)
+                for e2 in hu.let_inits(g).get(lid, []):
+                    yield from deep_walk(g, e2, seen, depth + 1)
+            for c in hir_callee(z):
+                h = F.fn(c, required=False)
+                if h is not None and h.hir and not h.is_closure and c not in seen and not c.startswith("std::"):
+                    seen.add(c)
+                    yield from deep_walk(h, h.hir["body"], seen, depth + 1)
+                    break
+
+    def is_option_ordering_cmp(e):
+        e = hu.strip_all(e)
+        return e is not None and e.get("k") in ("mcall", "call") and any(n.endswith("PartialOrd::partial_cmp") for n in hir_callee(e))
+
     for x in sorts:
         probs = []
+        unclear = []
         if "unstable" in x["name"]:
             probs.append("%s is not a stable sort (equal keys may change their relative order)" % x["name"])
         clo = hu.strip_casts(x["args"][0]) if x["args"] else None
         if clo is None or clo.get("k") != "closure":
             res.append(undecided("C09.S", key, f.loc(x["ln"]), "comparator is not a closure literal"))
             continue
+        g = f                   # the function whose body holds the comparison
+        body = clo["body"]
         pids = [[i for i, _n in pat_bindings(p)] for p in clo.get("params", [])]
-        cmps = [y for y in hir_walk(clo["body"]) if y.get("k") in ("mcall", "call", "bin") and
+        # the closure may do nothing but hand its two keys to a function: |(a, ..), (b, ..)| compare(a, b)
+        for _ in range(3):
+            b = hu.strip_all(body)
+            h = next((h_ for h_ in (F.fn(c, required=False) for c in (hir_callee(b) if b is not None and b.get("k") == "call" else []))
+                      if h_ is not None and h_.hir and not h_.is_closure), None)
+            if h is None or len(pids) != 2:
+                break
+            params = h.hir.get("params", [])
+            if len(params) != len(b["args"]) or not all(p_.get("k") == "bind" for p_ in params):
+                break
+            new = [[], []]
+            for p_, a in zip(params, b["args"]):
+                bl = base_local(a)
+                a_ = hu.strip_all(a)
+                while a_ is not None and a_.get("k") == "field":
+                    a_ = hu.strip_all(a_["e"])
+                plain = a_ is not None and hir_local_id(a_) is not None      # the key as it is (reference / field of the row), not a converted copy
+                for i in (0, 1):
+                    if plain and bl in pids[i]:
+                        new[i].append(p_["id"])
+            g, body, pids = h, h.hir["body"], new
+        cmps = [y for y in hir_walk(body) if y.get("k") in ("mcall", "call", "bin") and
                 any(n.endswith("PartialOrd::partial_cmp") or n.endswith("Ord::cmp") or n.endswith("total_cmp") or n.endswith("PartialOrd::lt")
                     for n in hir_callee(y))]
+        fallbacks = []          # (name of the mechanism, node, expression evaluated for keys partial_cmp does not order | None)
+        fb_ok = False
+        has_rank = False
         if x["name"] in ("sort_by",):
             if not cmps:
                 probs.append("the comparator does not compare the keys")
             # the fallback for incomparable keys: `unwrap_or(Equal)` makes NaN equal to every number while the numbers differ
             # from each other - not a total order, the standard sort panics when it notices. The fallback has to tell the
             # keys that compare with nothing apart (is_nan on both keys, compared as bools).
-            fallbacks = [y for y in hir_walk(clo["body"]) if y.get("k") == "mcall" and y["name"] in ("unwrap_or", "unwrap_or_else", "unwrap_or_default", "unwrap", "expect")]
-            fb_ok = False
-            has_rank = False
-            for y in fallbacks:
-                if y["name"] == "unwrap_or_else" and y["args"]:
-                    inner = [z for z in hir_walk(y["args"][0]) if z.get("k") in ("mcall", "call") and (z.get("name") == "is_nan" or
-                             any(n.endswith("f64::is_nan") or n.endswith("::is_nan") for n in hir_callee(z)))]
-                    # is_nan may live in a local closure that the fallback calls (directly or through another local closure)
-                    seen_l = set()
-                    work = [y["args"][0]]
-                    while work:
-                        e_ = work.pop()
-                        inner += [z for z in hir_walk(e_) if z.get("k") == "mcall" and z.get("name") == "is_nan"]
-                        for z in hir_walk(e_):
-                            if z.get("k") == "call" and z.get("f") is not None:
-                                lid = hir_local_id(hu.strip_all(z["f"]))
-                                if lid is not None and lid not in seen_l:
-                                    seen_l.add(lid)
-                                    work += hu.let_inits(f).get(lid, [])
-                    if inner:
-                        fb_ok = True
-                    # ... and the other open pairs (nil against an object, different objects of one length) by the numeric rule
-                    seen_l2 = set()
-                    work2 = [y["args"][0]]
-                    while work2:
-                        e_ = work2.pop()
-                        for z in hir_walk(e_):
-                            if z.get("k") in ("call", "mcall") and (any(n_.endswith("TryFrom::try_from") or n_.endswith("::try_from") or n_.endswith("TryInto::try_into")
-                                                                         for n_ in hir_callee(z)) or z.get("name") == "len"):
-                                has_rank = True
-                            if z.get("k") == "call" and z.get("f") is not None:
-                                lid = hir_local_id(hu.strip_all(z["f"]))
-                                if lid is not None and lid not in seen_l2:
-                                    seen_l2.add(lid)
-                                    work2 += hu.let_inits(f).get(lid, [])
+            for y in hir_walk(body):
+                if y.get("k") == "mcall" and y["name"] in ("unwrap_or", "unwrap_or_else", "unwrap_or_default", "unwrap", "expect"):
+                    fallbacks.append((y["name"], y, y["args"][0] if y["name"] in ("unwrap_or", "unwrap_or_else") and y["args"] else None))
+                elif y.get("k") == "match" and y.get("source") in (None, "Normal") and is_option_ordering_cmp(y["scrut"]):
+                    # match a.partial_cmp(b) { Some(o) => o, None => <fallback> }
+                    some = [a for a in y["arms"] if any(v[0].endswith("Option::Some") or v[0].endswith("::Some") for v in pat_variants(a["pat"]))]
+                    none = [a for a in y["arms"] if a not in some]
+                    ident = len(some) == 1 and not some[0].get("guard") and \
+                        hir_local_id(hu.strip_casts(some[0]["body"])) in [i for i, _n in pat_bindings(some[0]["pat"])] and \
+                        hu.strip_casts(some[0]["body"]).get("k") == "path"
+                    if not ident or len(none) != 1 or none[0].get("guard"):
+                        unclear.append("match on partial_cmp's answer (line %s) does not hand the answer on as it is" % y.get("ln"))
+                    else:
+                        fallbacks.append(("match", y, none[0]["body"]))
+                elif y.get("k") == "if" and hu.strip_casts(y["cond"]).get("k") == "let" and is_option_ordering_cmp(hu.strip_casts(y["cond"])["init"]):
+                    # if let Some(o) = a.partial_cmp(b) { o } else { <fallback> }
+                    c = hu.strip_casts(y["cond"])
+                    then = hu.strip_casts(y["then"])
+                    ident = any(v[0].endswith("::Some") for v in pat_variants(c["pat"])) and then is not None and then.get("k") == "path" and \
+                        hir_local_id(then) in [i for i, _n in pat_bindings(c["pat"])]
+                    if not ident or y.get("else") is None:
+                        unclear.append("`if let` on partial_cmp's answer (line %s) does not hand the answer on as it is" % y.get("ln"))
+                    else:
+                        fallbacks.append(("if let", y, y["else"]))
+            for nm, y, fe in fallbacks:
+                if fe is None or nm == "unwrap_or" and hu.strip_all(fe).get("k") == "path":
+                    continue
+                for z in deep_walk(g, fe):
+                    if z.get("k") in ("mcall", "call"):
+                        if z.get("name") == "is_nan" or any(n.endswith("f64::is_nan") or n.endswith("::is_nan") for n in hir_callee(z)):
+                            fb_ok = True
+                        # ... and the other open pairs (nil against an object, different objects of one length) by the numeric rule
+                        if any(n_.endswith("TryFrom::try_from") or n_.endswith("::try_from") or n_.endswith("TryInto::try_into")
+                               for n_ in hir_callee(z)) or z.get("name") == "len":
+                            has_rank = True
             if fallbacks and not fb_ok:
                 probs.append("incomparable keys are all treated alike (%s): with a NaN key the comparator is not a total order (NaN equals "
                              "every number, the numbers differ), and the standard sort panics when it detects that - the keys that compare "
-                             "with nothing have to be ordered apart (e.g. last)" % fallbacks[0]["name"])
+                             "with nothing have to be ordered apart (e.g. last)" % fallbacks[0][0])
             for y in cmps:
                 names = hir_callee(y)
                 if y.get("k") == "mcall" and "value::Value" not in ((hu.strip_all(y["recv"]) or {}).get("ty") or "") and \
-                        any(any(w is y for w in hir_walk(fbk["args"][0])) for fbk in fallbacks if fbk["name"] == "unwrap_or_else" and fbk["args"]):
-                    continue   # the comparison of the derived ranks inside the fallback
+                        (unclear or any(any(w is y for w in hir_walk(fe)) for _nm, _y, fe in fallbacks if fe is not None)):
+                    continue   # the comparison of the derived ranks inside the fallback (or inside a match that was not understood)
                 if not any(n == "<value::Value as std::cmp::PartialOrd>::partial_cmp" for n in names):
                     probs.append("keys are compared with %s instead of Value's own ordering (the one `<` uses): integers beyond 2^53, "
                                  "strings and tables are ordered differently from the comparison cards" % names[-1])
                     continue
-                def base_local(e):
-                    e = hu.strip_all(e)
-                    while e is not None and e.get("k") == "field":
-                        e = hu.strip_all(e["e"])
-                    return hir_local_id(e) if e is not None else None
                 recv = base_local(y["recv"]) if y.get("k") == "mcall" else None
                 arg = base_local(y["args"][0]) if y.get("args") else None
                 if len(pids) == 2 and not (recv in pids[0] and arg in pids[1]):
                     probs.append("the comparator does not compare its first argument's key with its second's as they are (descending order or converted keys)")
+            if cmps and not fallbacks and not unclear:
+                unclear.append("what the comparator answers for keys that partial_cmp does not order is not recognised")
         else:
             probs.append("sort entry point %s not recognised" % x["name"])
         if probs:
             res.append(bad("C09.S", key, f.loc(x["ln"]), "sorted/sorted_by_key: " + "; ".join(probs)))
+        elif unclear:
+            res.append(undecided("C09.S", key, f.loc(x["ln"]), "; ".join(unclear)))
         else:
             res.append(ok("C09.S", key, f.loc(x["ln"]), "stable sort_by with Value::partial_cmp(a, b) on the keys"))
         if x["name"] == "sort_by" and fallbacks and fb_ok:
@@ -423,15 +660,62 @@ def rule_f(F):
         if any(o in ("Le", "Ge") for o in ops):
             probs.append("the running best is replaced under a non-strict comparison %s (line %s): a later row with an equal key "
                          "replaces an earlier one" % (ops, x.get("ln")))
+    unclear = []
     if updates:
         # the scan must run front to back
+        for_loops = set()
         for s_ in sc.searches(f):
+            if s_["kind"] == "for":
+                for_loops |= set(id(y) for y in hir_walk(s_["node"]) if y.get("k") == "loop")
             if s_["kind"] == "for" and any(id(u[0]) in set(id(y) for y in hir_walk(s_["node"])) for u in updates):
                 d, _i = sc.direction(s_)
                 if d != "forward":
                     probs.append("the scan runs back to front (line %s)" % s_["ln"])
+        # ... also when it is written as `while` / `loop` with an index or an iterator advanced by hand
+        for u, _ops in updates:
+            encl = [y for y in hir_walk(f.hir["body"]) if y.get("k") == "loop" and any(z is u for z in hir_walk(y))]
+            if not encl:
+                unclear.append("the replacement (line %s) is not inside a loop" % u.get("ln"))
+                continue
+            lp = encl[-1]              # innermost
+            if id(lp) in for_loops:
+                continue
+            dirs = set()
+            # (a) rows[i] with i stepped by a constant
+            idx_ids = set(hir_local_id(hu.strip_casts(y["idx"])) for y in hir_walk(lp) if y.get("k") == "index") - {None}
+            for y in hir_walk(lp):
+                if y.get("k") in ("assign", "assign_op") and hir_local_id(hu.strip_all(y["l"])) in idx_ids:
+                    step = None
+                    if y["k"] == "assign_op" and hu.is_int_lit(y["r"]) and y["op"] in ("AddAssign", "SubAssign"):
+                        step = hu.int_lit(y["r"]) * (1 if y["op"] == "AddAssign" else -1)
+                    elif y["k"] == "assign":
+                        r = hu.strip_casts(y["r"])
+                        if r is not None and r.get("k") == "bin" and r["op"] in ("Add", "Sub") and hu.is_int_lit(r["r"]) and \
+                                hir_local_id(hu.strip_casts(r["l"])) in idx_ids:
+                            step = hu.int_lit(r["r"]) * (1 if r["op"] == "Add" else -1)
+                    dirs.add("?" if not step else ("forward" if step > 0 else "backward"))
+            # (b) it.next() on an iterator created before the loop
+            for y in hir_walk(lp):
+                if y.get("k") in ("mcall", "call") and any(c.endswith("Iterator::next") or c.endswith("DoubleEndedIterator::next_back") for c in hir_callee(y)):
+                    recv = y["recv"] if y.get("k") == "mcall" else (y["args"][0] if y["args"] else None)
+                    lid = hir_local_id(hu.strip_all(recv)) if recv is not None else None
+                    ins = inits.get(lid, []) if lid is not None else []
+                    if len(ins) != 1:
+                        dirs.add("?")
+                        continue
+                    ad, _b = sc._chain(f, ins[0])
+                    rev = (ad.count("rev") % 2 == 1) != any(c.endswith("next_back") for c in hir_callee(y))
+                    dirs.add("backward" if rev else "forward")
+            if dirs == {"forward"}:
+                continue
+            if "backward" in dirs and "?" not in dirs and len(dirs) == 1:
+                probs.append("the scan runs back to front (line %s)" % lp.get("ln"))
+            else:
+                unclear.append("direction of the hand-written scan (line %s) not recognised" % lp.get("ln"))
     if probs:
         res.append(bad("C09.F", key, f.loc(), "ties are not resolved in favour of the first row: " + "; ".join(probs)))
+    elif unclear:
+        res.append(undecided("C09.F", key, f.loc(), "; ".join(unclear)))
     else:
         res.append(ok("C09.F", key, f.loc(), "first of equal keys wins (%s)" % ", ".join([w for _x, w, _f in sel] + ["strict comparison %s in a forward scan" % o for _x, o in updates])))
     return res
@@ -553,34 +837,35 @@ def rule_k(F):
     receives the row's value under that convention."""
     from cao import cardtree as ct
     res = []
-    sites = []
-    for nat in ("stdlib::native_minmax", "stdlib::native_sorted"):
-        f = F.fn(nat)
+    def row_field(f, du, op, depth=0):
+        """(tuple field the pushed operand was read from | None, local the field was read from | None)"""
+        p = op_place(op)
+        seen = set()
+        while p is not None and depth < 12:
+            depth += 1
+            flds = [e["name"] for e in p["p"] if e["k"] == "field"]
+            if flds and flds[-1] in ("0", "1", "2"):
+                return flds[-1], p["l"]
+            if p["l"] in seen:
+                return None, None
+            seen.add(p["l"])
+            d = du.sole_def(p["l"])
+            if d is None or d[2] != "assign":
+                return None, p["l"]
+            rv = d[3]["rv"]
+            if rv["k"] in ("use", "cast"):
+                p = op_place(rv["op"])
+            elif rv["k"] in ("ref", "rawptr"):
+                p = rv["place"]
+            else:
+                return None, p["l"]
+        return None, None
+
+    def own_sites(f):
+        """run_function calls written in f: (line, [(field, base local) of the two values pushed last before it])"""
         du = DefUse(f)
         cfg = f.cfg
-
-        def row_field(op, depth=0):
-            p = op_place(op)
-            seen = set()
-            while p is not None and depth < 12:
-                depth += 1
-                flds = [e["name"] for e in p["p"] if e["k"] == "field"]
-                if flds and flds[-1] in ("0", "1", "2"):
-                    return flds[-1]
-                if p["l"] in seen:
-                    return None
-                seen.add(p["l"])
-                d = du.sole_def(p["l"])
-                if d is None or d[2] != "assign":
-                    return None
-                rv = d[3]["rv"]
-                if rv["k"] in ("use", "cast"):
-                    p = op_place(rv["op"])
-                elif rv["k"] in ("ref", "rawptr"):
-                    p = rv["place"]
-                else:
-                    return None
-            return None
+        out = []
         pushes = [(bi, t) for bi, t in mu.calls(f) if any(n.endswith("Vm::stack_push") for n in callee_names(t["func"]))]
         for bi, t in mu.calls(f):
             if not any(n.endswith("Vm::run_function") for n in callee_names(t["func"])):
@@ -588,9 +873,47 @@ def rule_k(F):
             doms = [(pb, pt) for pb, pt in pushes if cfg.dominates(pb, bi) and pb != bi]
             # nearest two: those not dominating another dominating push ... order by dominance depth
             doms.sort(key=lambda x: len(cfg.dom[x[0]]))
-            last2 = doms[-2:]
-            fields = [row_field(pt["args"][1]) for _pb, pt in last2]
-            sites.append((f, t.get("ln"), fields))
+            out.append((t.get("ln"), [row_field(f, du, pt["args"][1]) for _pb, pt in doms[-2:]]))
+        return out
+
+    def sites_of(f, depth=0):
+        """the callback sites f reaches: its own, and those of the library's private helpers it calls (`push the row, call
+        the key function` moved into a function of its own). A helper that pushes fields of one of its parameters is
+        instantiated per call: the argument is a row passed whole (same fields) or a tuple built from a row's fields.
+        -> (line in f, [(field, base local in f)])"""
+        out = own_sites(f)
+        if depth >= 2:
+            return out
+        du = DefUse(f)
+        for _bi, t in mu.calls(f):
+            g = next((g_ for g_ in (F.fn(n, required=False) for n in callee_names(t["func"]))
+                      if g_ is not None and g_.mir and not g_.is_closure and g_.short.startswith("stdlib::") and g_ is not f), None)
+            if g is None:
+                continue
+            for _ln, fields in sites_of(g, depth + 1):
+                inst = []
+                for fld, base in fields:
+                    if fld is None or base is None or not (1 <= base <= g.mir["arg_count"]) or base > len(t["args"]):
+                        inst.append((None, None))       # not a field of a parameter: nothing known at this call
+                        continue
+                    arg = t["args"][base - 1]
+                    al = (op_place(arg) or {}).get("l")
+                    d = du.sole_def(al) if al is not None and not op_place(arg)["p"] else None
+                    if d is not None and d[2] == "assign" and d[3]["rv"]["k"] == "agg" and d[3]["rv"]["agg"]["k"] == "tuple":
+                        ops = d[3]["rv"]["ops"]
+                        inst.append(row_field(f, du, ops[int(fld)]) if int(fld) < len(ops) else (None, None))
+                    else:
+                        whole, wl = row_field(f, du, arg)
+                        ty = f.local_ty(al) if al is not None else ""
+                        # a (key, value) row handed over as it is
+                        inst.append((fld, wl) if whole is None and ty.replace(" ", "") == "(value::Value,value::Value)" else (None, None))
+                out.append((t.get("ln"), inst))
+        return out
+    sites = []
+    for nat in ("stdlib::native_minmax", "stdlib::native_sorted"):
+        f = F.fn(nat)
+        for ln, fields in sites_of(f):
+            sites.append((f, ln, [x[0] for x in fields]))
     if len(sites) < 2:
         raise AnchorMissing("callback sites (run_function) in native_minmax / native_sorted (found %d)" % len(sites))
     orders = set(tuple(x[2]) for x in sites)
@@ -634,8 +957,7 @@ def rule_k(F):
     # the wrappers hand row_to_value and their own input on, in the order the _by_key functions declare them
     for name, callee in (("min", "min_by_key"), ("max", "max_by_key"), ("sorted", "sorted_by_key")):
         f = F.fn("stdlib::" + name)
-        helper = F.fn("stdlib::minmax") if name in ("min", "max") else f
-        t = ct.tree(F, helper.hir["body"])
+        t = ct.tree(F, f.hir["body"])         # constructor helpers (`minmax("std.min_by_key")`) are read inline
         tc = ct.tree(F, F.fn("stdlib::" + callee).hir["body"])
         key = "C09/K/%s/forwards-input-and-row_to_value" % name
         calls = [x for x in ct.walk(t) if x.get("op") == "call_function"] if isinstance(t, dict) else []
@@ -676,13 +998,8 @@ def rule_q(F):
     depends on the names the user picked."""
     from cao import cardtree as ct
     res = []
-    lib = F.fn("stdlib::standard_library")
-    exported = set()
-    for x in hir_walk(lib.hir["body"]):
-        if x.get("k") == "mcall" and x["name"] == "push":
-            for y in hir_walk(x["args"][0]):
-                if y.get("k") == "lit" and y["lit"]["k"] == "str":
-                    exported.add(y["lit"]["v"])
+    exported, unresolved = exported_functions(F)
+    exported = set(exported)
     if len(exported) < 8:
         raise AnchorMissing("names exported by standard_library() (found %d)" % len(exported))
     n = 0
@@ -710,6 +1027,8 @@ def rule_q(F):
             key = "C09/Q/%s/refers-to-%s-by-full-path" % (f.short.rsplit("::", 1)[-1], name.rsplit(".", 1)[-1])
             if name.startswith("std.") and name[4:] in exported:
                 res.append(ok("C09.Q", key, f.loc(x.get("ln")), "`%s`" % name))
+            elif unresolved and name.rsplit(".", 1)[-1] not in exported:
+                res.append(undecided("C09.Q", key, f.loc(x.get("ln")), "`%s`: standard_library() has %d entr(ies) whose name could not be resolved" % (name, unresolved)))
             elif name in exported or name.rsplit(".", 1)[-1] in exported:
                 res.append(bad("C09.Q", key, f.loc(x.get("ln")), "the library function %s refers to the library's `%s` as `%s`: a bare name is looked up "
                                "in the root module of the user's program first, so a user function of that name replaces the helper and "
@@ -741,8 +1060,7 @@ def rule_a(F):
         chain.append(e["name"])
         e = hu.strip_all(e["recv"])
     problems = []
-    if chain != ["enumerate", "iter"]:
-        problems.append("the rows are visited through %s instead of iter().enumerate()" % ".".join(reversed(chain)))
+    unclear = []
     arm = None
     for y in hir_walk(loops[0]):
         if y.get("k") == "match" and y is not loops[0] and y.get("source") == "ForLoopDesugar":
@@ -752,7 +1070,7 @@ def rule_a(F):
     ins = [y for y in hir_walk(loops[0]) if y.get("k") == "mcall" and any(n.endswith("CaoLangTable::insert") for n in hir_callee(y))]
     if arm is None or len(ins) != 1:
         raise AnchorMissing("row pattern / insert call in native_to_array")
-    # the pattern is Some((i, (_, val)))
+
     def tuple_elems(p):
         while p is not None and p.get("k") in ("tuple_struct", "struct") and not p.get("k") == "tuple":
             inner = p.get("pats") or [fl["pat"] for fl in p.get("fields", [])]
@@ -760,20 +1078,74 @@ def rule_a(F):
                 return None
             p = inner[0]
         return p["pats"] if p is not None and p.get("k") == "tuple" else None
-    outer = tuple_elems(arm["pat"])
-    idx_id = val_id = None
-    if outer and len(outer) == 2 and outer[0].get("k") == "bind" and outer[1].get("k") == "tuple" and len(outer[1]["pats"]) == 2:
-        idx_id = outer[0]["id"]
-        vp = outer[1]["pats"][1]
-        val_id = vp["id"] if vp.get("k") == "bind" else None
     a0 = hu.strip_all(ins[0]["args"][0])
     a1 = hu.strip_all(ins[0]["args"][1])
     if a0 is not None and a0.get("k") == "un" and a0.get("op") == "Deref":
         a0 = hu.strip_all(a0["e"])
     if a1 is not None and a1.get("k") == "un" and a1.get("op") == "Deref":
         a1 = hu.strip_all(a1["e"])
-    if idx_id is None or hir_local_id(a0) != idx_id:
-        problems.append("the key of the inserted row is not enumerate's index as it is")
+    outer = tuple_elems(arm["pat"])
+    idx_id = val_id = None
+    how = None
+    if chain == ["enumerate", "iter"]:
+        # the pattern is Some((i, (_, val))): the position is enumerate's index
+        how = "for (i, (_, val)) in t.iter().enumerate() { out.insert(i, *val) }"
+        if outer and len(outer) == 2 and outer[0].get("k") == "bind" and outer[1].get("k") == "tuple" and len(outer[1]["pats"]) == 2:
+            idx_id = outer[0]["id"]
+            vp = outer[1]["pats"][1]
+            val_id = vp["id"] if vp.get("k") == "bind" else None
+        if idx_id is None or hir_local_id(a0) != idx_id:
+            problems.append("the key of the inserted row is not enumerate's index as it is")
+    elif chain == ["iter"]:
+        # the pattern is Some((_, val)): the position is a counter the loop keeps itself. It has to start at 0, be the key
+        # as it is, and be stepped by exactly 1 once per row, after the insert, on every path through the body
+        how = "let mut n = 0; for (_, val) in t.iter() { out.insert(n, *val); n += 1 }"
+        if outer and len(outer) == 2:
+            vp = outer[1]
+            val_id = vp["id"] if vp.get("k") == "bind" else None
+        cid = hir_local_id(a0)
+        if cid is None:
+            problems.append("the rows are visited through iter() without enumerate() and the key of the inserted row is not a position counter")
+        else:
+            lets = [st for x in hir_walk(f.hir["body"]) if x.get("k") == "block" for st in x["block"]["stmts"]
+                    if st["k"] == "let" and st["pat"].get("k") == "bind" and st["pat"]["id"] == cid]
+            in_loop = set(id(y) for y in hir_walk(loops[0]))
+            writes = [y for y in hir_walk(f.hir["body"]) if y.get("k") in ("assign", "assign_op") and hir_local_id(hu.strip_all(y["l"])) == cid]
+            borrowed = [y for y in hir_walk(f.hir["body"]) if y.get("k") == "addr_of" and y.get("mutbl") and hir_local_id(hu.strip_all(y["e"])) == cid]
+            body = hir_strip(arm["body"])
+            stmts = [st["e"] for st in body["block"]["stmts"] if st["k"] in ("semi", "expr")] + \
+                    ([body["block"]["expr"]] if body["block"].get("expr") is not None else []) if body.get("k") == "block" else []
+            if len(lets) != 1 or lets[0].get("init") is None or any(id(x) in in_loop for x in [lets[0]["init"]]) or borrowed:
+                unclear.append("the counter used as the key is not a plain local initialised once before the loop")
+            elif not (hu.is_int_lit(lets[0]["init"]) and hu.int_lit(lets[0]["init"]) == 0):
+                iv = hu.int_lit(lets[0]["init"]) if hu.is_int_lit(lets[0]["init"]) else None
+                (problems if iv is not None else unclear).append("the position counter starts at %s instead of 0" % (iv if iv is not None else "a computed value"))
+            if len(writes) != 1 or id(writes[0]) not in in_loop:
+                (unclear if writes else problems).append("the position counter is updated %d times" % len(writes))
+            else:
+                w = writes[0]
+                step = None
+                if w["k"] == "assign_op" and w["op"] == "AddAssign" and hu.is_int_lit(w["r"]):
+                    step = hu.int_lit(w["r"])
+                elif w["k"] == "assign":
+                    r = hu.strip_casts(w["r"])
+                    if r is not None and r.get("k") == "bin" and r["op"] == "Add":
+                        for a_, b_ in ((r["l"], r["r"]), (r["r"], r["l"])):
+                            if hir_local_id(hu.strip_casts(a_)) == cid and hu.is_int_lit(b_):
+                                step = hu.int_lit(b_)
+                if step is None:
+                    unclear.append("the update of the position counter is not recognised")
+                elif step != 1:
+                    problems.append("the position counter is stepped by %s per row" % step)
+                wi = next((i for i, st in enumerate(stmts) if hir_strip(st) is w), None)
+                ii = next((i for i, st in enumerate(stmts) if any(y is ins[0] for y in hir_walk(st))), None)
+                skips = [y for y in hir_walk(arm["body"]) if y.get("k") in ("continue", "break")]
+                if wi is None or ii is None or skips:
+                    unclear.append("the position counter is not stepped unconditionally once per row")
+                elif wi < ii:
+                    problems.append("the position counter is stepped before the row is inserted (the keys start at 1)")
+    else:
+        problems.append("the rows are visited through %s instead of iter().enumerate()" % ".".join(reversed(chain)))
     if val_id is None or hir_local_id(a1) != val_id:
         problems.append("the inserted value is not the row's value (second field of the row)")
     # every result of the Table arm is the freshly built table: no path hands the input (or anything else) back
@@ -802,8 +1174,10 @@ def rule_a(F):
                                 % ("the input itself" if it["id"] in locs else "another value"))
     if problems:
         res.append(bad("C09.A", key, f.loc(ins[0].get("ln")), "std.to_array: %s - the result is not the input's values re-keyed 0..n-1 in order" % "; ".join(problems)))
+    elif unclear:
+        res.append(undecided("C09.A", key, f.loc(ins[0].get("ln")), "; ".join(unclear)))
     else:
-        res.append(ok("C09.A", key, f.loc(ins[0].get("ln")), "for (i, (_, val)) in t.iter().enumerate() { out.insert(i, *val) }"))
+        res.append(ok("C09.A", key, f.loc(ins[0].get("ln")), how))
     return res
 
 
